@@ -676,3 +676,80 @@ class ReloadAll(FnCheck):
 def locks(st):
     return st.ghost.get('locks', ())
 
+
+
+# ---------------------------------------------------------------------------------------------------------------
+# the observers that feed received notifications into the consumer MDIB: the buffering decision (buffered xor processed,
+# C06.pre_check_report) is taken inside process_incoming_*; an observer that filters before that call loses reports
+CX = 'sdc11073.mdib.consumermdibxtra'
+_OBSERVERS = {
+    '_on_episodic_metric_report': 'process_incoming_metric_states_report',
+    '_on_episodic_alert_report': 'process_incoming_alert_states_report',
+    '_on_operational_state_report': 'process_incoming_operational_states_report',
+    '_on_waveform_report': 'process_incoming_waveform_states',
+    '_on_episodic_context_report': 'process_incoming_context_states_report',
+    '_on_episodic_component_report': 'process_incoming_component_states_report',
+    '_on_description_modification_report': 'process_incoming_description_modifications',
+}
+
+
+def _mk_observer(fn_name, proc_name):
+    class Observer(FnCheck):
+        id = f'C06.observer.{fn_name}'
+        prop = 'C06'
+        tag = 'S'
+        opaque_ok = True
+        target = f'{CX}:ConsumerMdibMethods.{fn_name}'
+        stable_fields = ('mdib_version_group', '_mdib')
+        doc = (f'{fn_name}: every received notification is handed to ConsumerMdib.{proc_name} exactly once, with its own '
+               'MdibVersionGroup and before anything that depends on the state of the MDIB - in particular also while '
+               'the MDIB is not initialized yet (that call buffers the report for the replay after GetMdib); the '
+               'observer itself never drops a report')
+
+        def setup(self, b):
+            self.group = b.obj('mdib_version_group')
+            self.msg = b.obj('received_message_data', mdib_version_group=self.group)
+            self.mdib = b.obj('mdib')
+            self.o = b.obj('self', cls=(CX, 'ConsumerMdibMethods'), _mdib=self.mdib)
+            self.init = b.bool('mdib_is_initialized')
+            b.distinct(self.o, self.mdib, self.msg, self.group)
+            b.st.ghost['proc'] = ()
+            b.st.ghost['c:init_reads'] = 0
+            return self.o, [self.msg], {}
+
+        def callees(self, ex):
+            def proc(ex_, st, args, kwargs):
+                st.ghost['proc'] = st.ghost['proc'] + ((st.box(args[0]) if args else None, st.ghost['c:init_reads']),)
+                return [(st.fork(), Raise(ex_.mk_exc('*', proc_name))), (st, vany(fresh(Val, 'accepted'), maybe_none=True))]
+            d = {f'*.{p}': Pure(proc, name=f'ConsumerMdib.{p} (C06 public entry points)') for p in set(_OBSERVERS.values())}
+            d['*.from_node'] = Pure(lambda e, s, a, k: s.alloc('Report'), name='report class from_node (C05)')
+            return d
+
+        def hooks(self, ex):
+            chk = self
+
+            class H:
+                tracked_names = ('is_initialized',) + tuple(set(_OBSERVERS.values()))
+
+                @staticmethod
+                def on_attr_read(ex_, st, o, attr, node):
+                    if attr == 'is_initialized':
+                        st.ghost['c:init_reads'] = st.ghost['c:init_reads'] + 1
+                        return [(st, vbool(chk.init.e))]
+                    return None
+            return H
+
+        def post(self, ex, st0, st, outcome, b):
+            calls = st.ghost['proc']
+            if outcome[0] == 'exc':
+                return
+            ex.oblige(st, 'report_is_handed_to_the_mdib_exactly_once', z3.BoolVal(len(calls) == 1), info={'calls': len(calls)})
+            if len(calls) == 1:
+                ex.oblige(st, 'with_its_own_version_group', calls[0][0] == Val.ref(self.group.e) if calls[0][0] is not None else z3.BoolVal(False))
+                ex.oblige(st, 'before_any_look_at_the_initialisation_state', z3.BoolVal(calls[0][1] == 0))
+    Observer.__name__ = 'Observer_' + fn_name
+    return Observer
+
+
+for _f, _p in _OBSERVERS.items():
+    register(_mk_observer(_f, _p))
